@@ -166,6 +166,41 @@ def CovModel.step (m : CovModel) : CovOp → CovModel
   | .setPop ix => m.setPop false ix
   | .setDimNames ns => m.setDimNames ns
 
+/-! ### `set_n_ids` around a `HeterogeneousModel` (one parameter row per individual)
+
+`CovariatePopulationModel.set_n_ids` forwards to the wrapped model — whose parameter table then
+has `n` rows — but keeps its own split point `_n_pop`, the selection and the β names. -/
+
+/-- default names of a heterogeneous model with `n` individuals: `'ID k'` repeated `n_dim` times -/
+def hetBaseNames (n nDim : Nat) : List String :=
+  (List.range n).flatMap (fun k => List.replicate nDim ("ID " ++ toString (k + 1)))
+
+/-- wrapper state that matters here: bookkeeping + the split point `_n_pop` -/
+structure CovHet where
+  m : CovModel
+  nPopSplit : Nat
+  deriving Repr
+
+def CovHet.construct (n nDim nCov : Nat) (dimNames covNames : List String) : CovHet :=
+  ⟨CovModel.construct n nDim nCov (hetBaseNames n nDim) dimNames covNames, n * nDim⟩
+
+/-- the code as it is -/
+def CovHet.setNIds (h : CovHet) (n : Nat) : CovHet :=
+  { h with m := { h.m with perDim := n, baseNames := hetBaseNames n h.m.nDim } }
+
+/-- `n_parameters()`: wrapped count + covariate-model count -/
+def CovHet.nParameters (h : CovHet) : Nat := h.m.perDim * h.m.nDim + h.m.nCov * h.m.sel.length
+
+/-- does an evaluation with a vector of `n_parameters()` entries get past the two reshapes?
+    (`parameters[:_n_pop].reshape(_n_pop // n_dim, n_dim)` always does; `parameters[_n_pop:]`
+    must have `n_selected · n_cov` entries) -/
+def CovHet.evaluable (h : CovHet) : Bool :=
+  decide (h.nParameters - h.nPopSplit = h.m.sel.length * h.m.nCov) && decide (h.nPopSplit ≤ h.nParameters)
+
+/-- what the proposed repair does when nothing was selected by the user: as the constructor -/
+def CovHet.setNIdsIntended (h : CovHet) (n : Nat) : CovHet :=
+  CovHet.construct n h.m.nDim h.m.nCov h.m.dimNames h.m.covNames
+
 /-! ## the numeric part -/
 
 /-- what the numeric methods need of the state -/
@@ -219,24 +254,35 @@ def covSensAt (c : CovCfg) (nIds : Nat) (g : Nat → Nat → Nat → α) (cov : 
 inductive CovErr | valueError
   deriving Repr, DecidableEq
 
-/-- the wrapped model's `compute_log_likelihood` on the tensor `(n_ids, n_per_dim, n_dim)`.
-    All kinds read individual `i`'s own slice; `HeterogeneousModel` takes `parameters[:, 0, :]`
-    (row 0 for every individual — `legacyHetero = true`, the code as it is) where
-    `compute_individual_parameters` takes the diagonal `parameters[i, i, :]`
-    (`legacyHetero = false`: PopModels' `popLL`, individual `i` ↔ row `i`). -/
-def covLLcore [HasErf α] (legacyHetero : Bool) (k : Kind) (nIds nDim : Nat)
+/-- the wrapped model's `compute_log_likelihood` on the tensor `(n_ids, n_per_dim, n_dim)`:
+    every kind reads individual `i`'s own slice `ϑ_i`; `HeterogeneousModel` takes the diagonal
+    `parameters[i, i, :]` (individual `i` ↔ row `i`, as `compute_individual_parameters` does) —
+    this is PopModels' `popLL`. -/
+def covLLcore [HasErf α] (k : Kind) (nIds nDim : Nat)
     (th : Nat → Nat → Nat → α) (obs : Nat → Nat → α) : Score α :=
-  match k, legacyHetero with
-  | .hetero, true =>
+  popLL k nIds nDim th obs
+
+/-- before `04b584d` the heterogeneous model took `parameters[:, 0, :]` — row 0 for EVERY
+    individual (kept for `C07_hetero_ll_counterexample`) -/
+def covLLcoreLegacy [HasErf α] (k : Kind) (nIds nDim : Nat)
+    (th : Nat → Nat → Nat → α) (obs : Nat → Nat → α) : Score α :=
+  match k with
+  | .hetero =>
     if iany2 nIds nDim (fun i d => !(le (obs i d) (th i 0 d) && le (th i 0 d) (obs i d))) then .negInf
     else .val zero
-  | _, _ => popLL k nIds nDim th obs
+  | _ => popLL k nIds nDim th obs
 
 /-- `CovariatePopulationModel.compute_log_likelihood` -/
-def covLL [HasErf α] (legacyHetero : Bool) (k : Kind) (c : CovCfg) (nIds : Nat) (params : List α)
+def covLL [HasErf α] (k : Kind) (c : CovCfg) (nIds : Nat) (params : List α)
     (cov : Nat → Nat → α) (obs : Nat → Nat → α) : Except CovErr (Score α) :=
   if params.length ≠ c.nParams then .error .valueError
-  else .ok (covLLcore legacyHetero k nIds c.nDim (covTh c (vecOf params) cov) obs)
+  else .ok (covLLcore k nIds c.nDim (covTh c (vecOf params) cov) obs)
+
+/-- the pre-`04b584d` variant -/
+def covLLLegacy [HasErf α] (k : Kind) (c : CovCfg) (nIds : Nat) (params : List α)
+    (cov : Nat → Nat → α) (obs : Nat → Nat → α) : Except CovErr (Score α) :=
+  if params.length ≠ c.nParams then .error .valueError
+  else .ok (covLLcoreLegacy k nIds c.nDim (covTh c (vecOf params) cov) obs)
 
 /-- `CovariatePopulationModel.compute_individual_parameters(..., return_eta=False)` -/
 def covIndiv (k : Kind) (c : CovCfg) (nIds : Nat) (params : List α) (cov : Nat → Nat → α)
@@ -253,19 +299,29 @@ def covIndiv (k : Kind) (c : CovCfg) (nIds : Nat) (params : List α) (cov : Nat 
 def covDTheta (c : CovCfg) (nIds : Nat) (g : Nat → Nat → Nat → α) (cov : Nat → Nat → α) : List α :=
   covSens c nIds g cov
 
-/-- the `reduce=True` form. `legacy = true` (the code as it is):
-    `np.hstack((dpsi.flatten(), dtheta))` for every wrapped kind.
-    `legacy = false` (what `n_hierarchical_parameters` announces and the composed model
-    expects): kinds without individual-level entries return the top-level block only, and —
-    since `ψ_i = ϑ_i[0, ·]` (pooled) resp. `ψ_i = ϑ_i[i, ·]` (heterogeneous) there — the upstream
-    `dpsi` enters through `ϑ_i`. -/
-def covReduced (legacy : Bool) (k : Kind) (c : CovCfg) (nIds : Nat) (dpsi : Nat → Nat → α)
+/-- the row of `ϑ_i` that IS individual `i`'s parameter for the kinds without individual-level
+    entries: `ψ_i = ϑ_i[0, ·]` (pooled), `ψ_i = ϑ_i[i, ·]` (heterogeneous) -/
+def ownRow (k : Kind) (i : Nat) : Nat :=
+  match k with
+  | .hetero => i
+  | _ => 0
+
+/-- the `reduce=True` form of `compute_sensitivities` (since `3d6f67b`): kinds with
+    individual-level entries return `np.hstack((dpsi.flatten(), dtheta))`; pooled and heterogeneous
+    models (`n_bottom = 0`) return the top-level block only, with the upstream `dpsi` carried
+    through `ϑ_i` (`dvartheta[:, 0, :] += dpsi` resp. `dvartheta[ids, ids, :] += dpsi`). -/
+def covReduced (k : Kind) (c : CovCfg) (nIds : Nat) (dpsi : Nat → Nat → α)
     (g : Nat → Nat → Nat → α) (cov : Nat → Nat → α) : List α :=
   let flatPsi := (List.range nIds).flatMap (fun i => (List.range c.nDim).map (fun d => dpsi i d))
-  if legacy || k.hierarchical then flatPsi ++ covSens c nIds g cov
-  else
-    let row : Nat → Nat := fun i => match k with | .hetero => i | _ => 0
-    covSens c nIds (fun i p d => if p = row i then g i p d + dpsi i d else g i p d) cov
+  if k.hierarchical then flatPsi ++ covSens c nIds g cov
+  else covSens c nIds (fun i p d => if p = ownRow k i then g i p d + dpsi i d else g i p d) cov
+
+/-- before `3d6f67b`: `np.hstack((dpsi.flatten(), dtheta))` for EVERY wrapped kind
+    (kept for `C07_grad_pooled_counterexample`) -/
+def covReducedLegacy (c : CovCfg) (nIds : Nat) (dpsi : Nat → Nat → α)
+    (g : Nat → Nat → Nat → α) (cov : Nat → Nat → α) : List α :=
+  (List.range nIds).flatMap (fun i => (List.range c.nDim).map (fun d => dpsi i d))
+    ++ covSens c nIds g cov
 
 /-- `(n_bottom, n_top)` of `n_hierarchical_parameters(n_ids)` -/
 def covNHier (k : Kind) (c : CovCfg) (nIds : Nat) : Nat × Nat :=
@@ -275,11 +331,13 @@ def covNHier (k : Kind) (c : CovCfg) (nIds : Nat) : Nat × Nat :=
 def scoreSum (n : Nat) (f : Nat → Score α) : Score α :=
   (List.range n).foldl (fun acc i => Score.add acc (f i)) Score.zero
 
-/-- the wrapped model evaluated on individual `i` ALONE with the parameters `ϑ_i`
-    (a one-individual call of `popLL` whose parameters do not vary) -/
+/-- the wrapped model evaluated on individual `i` ALONE with the parameters `ϑ_i`: a
+    one-individual call of `popLL` whose parameters do not vary. For the heterogeneous model (one
+    row per individual) the one-individual model's single row is individual `i`'s own row
+    `ϑ_i[i, ·]`; for every other kind `ownRow = 0` and the parameters are `ϑ_i` unchanged. -/
 def perIndividualLL [HasErf α] (k : Kind) (nDim : Nat) (th : Nat → Nat → Nat → α) (obs : Nat → Nat → α)
     (i : Nat) : Score α :=
-  popLL k 1 nDim (fun _ p d => th i p d) (fun _ d => obs i d)
+  popLL k 1 nDim (fun _ p d => th i (p + ownRow k i) d) (fun _ d => obs i d)
 
 /-! ## sampling as a transformation of primitive draws
 
